@@ -364,6 +364,46 @@ def band_limited_oracle():
     return bad
 
 
+def zaxis_derivative_oracle():
+    """reported Cartesian derivative of the interpolant at points on the z-axis through the centre vs central differences of the interpolant itself."""
+    import warnings
+    warnings.simplefilter("ignore")
+    from grid.atomgrid import AtomGrid
+    from grid.onedgrid import GaussLegendre
+    from grid.rtransform import BeckeRTransform
+    rg = BeckeRTransform(1e-4, 1.3).transform_1d_grid(GaussLegendre(30))
+    c = np.array([0.2, -0.1, 0.3])
+    ag = AtomGrid(rg, degrees=[9], center=c)
+    f = lambda p: (0.7 + (p[:, 0] - c[0]) - 0.5 * (p[:, 1] - c[1]) + 0.3 * (p[:, 2] - c[2])) * np.exp(-np.sum((p - c) ** 2, axis=1))
+    itp = ag.interpolate(f(ag.points))
+    out = {}
+    for label, q in (("z-axis above the centre", c + np.array([0.0, 0.0, 0.5])), ("z-axis below the centre", c - np.array([0.0, 0.0, 0.4])), ("generic point", c + np.array([0.3, 0.2, 0.5]))):
+        q = q[None, :]
+        rep = np.asarray(itp(q, deriv=1), float).ravel()
+        h = 1e-5
+        fd = np.array([(itp(q + h * np.eye(3)[a]) - itp(q - h * np.eye(3)[a])) / (2 * h) for a in range(3)], float).ravel()
+        rad_rep = float(np.asarray(itp(q, deriv=1, only_radial_deriv=True)).ravel()[0])
+        u = (q[0] - c) / np.linalg.norm(q[0] - c)
+        out[label] = dict(reported=rep.tolist(), finite_difference=fd.tolist(), ok=bool(np.allclose(rep, fd, atol=1e-5)), radial_ok=bool(abs(rad_rep - float(fd @ u)) < 1e-5))
+    return out
+
+
+def job_zaxis(ctx: Ctx):
+    an, ag, bg, ut, mg = _mods()
+    ctx.encoded(ag.AtomGrid.interpolate, ut.generate_derivative_real_spherical_harmonics, ut.convert_derivative_from_spherical_to_cartesian)
+    with unpatched(an, ag, bg, ut, mg):
+        out = zaxis_derivative_oracle()
+    for label, r in out.items():
+        key = "interpolate:cartesian-derivative:" + ("z-axis" if "z-axis" in label else "generic")
+        if r["ok"]:
+            ctx.ok(f"float code: reported Cartesian derivative == derivative of the same interpolant ({label})", how="ground enumeration (not a solver obligation)")
+        else:
+            ctx.fail(f"float code: reported Cartesian derivative == derivative of the same interpolant ({label})", detail=str(r)[:300], key=key, replay=(lambda m, r=r: (True, r)), model={})
+        (ctx.ok if r["radial_ok"] else ctx.fail)(f"float code: radial-only derivative == directional derivative of the interpolant ({label})", **(dict(how="ground enumeration (not a solver obligation)") if r["radial_ok"] else
+                                                 dict(detail=str(r)[:200], key=key + ":radial", replay=(lambda m, r=r: (True, r)), model={})))
+    ctx.twins_sat += 1
+
+
 def job_band_limited(ctx: Ctx):
     """float code with the shipped angular grids and SciPy splines (the solver jobs stub both): a random function with l <= min_i d_i / 2 on uniform and mixed
     (odd and even) per-shell degrees, four methods, rotation seeds, a node at r = 0 -> exact angular integrals, total, splines through g_lm(r_i), values at the
@@ -470,7 +510,7 @@ def job_molgrid(ctx: Ctx):
 def jobs(tier):
     js = [Job("decompose/lebedev/3,3/symbolic-r", job_decompose, "lebedev", [3, 3], False, False), Job("decompose/lebedev/3,3/r0=0", job_decompose, "lebedev", [3, 3], True, False),
           Job("decompose/maxdet/2,4/mixed", job_decompose, "maxdet", [2, 4], False, True), Job("decompose/lebedev/3,5/mixed", job_decompose, "lebedev", [3, 5], False, True),
-          Job("history/rotate", job_history_rotate), Job("molgrid", job_molgrid), Job("molgrid/real", job_molgrid_real), Job("ground/band-limited", job_band_limited)]
+          Job("history/rotate", job_history_rotate), Job("molgrid", job_molgrid), Job("molgrid/real", job_molgrid_real), Job("ground/band-limited", job_band_limited), Job("ground/z-axis-derivative", job_zaxis)]
     js += [Job(f"interpolate/{m}", job_interpolate, m) for m in ("value", "radial2", "spherical", "cartesian")]
     if tier == "thorough":
         js += [Job("decompose/maxdet/4,2,4/r0=0", job_decompose, "maxdet", [4, 2, 4], True, True), Job("decompose/spherical/3,5", job_decompose, "spherical", [3, 5], False, True)]
@@ -486,7 +526,7 @@ def main():
         bounds=dict(grids="2-3 shells, Lebedev 3/5, max-det 2/4, spherical 3/5; uniform and mixed per-shell degrees; a node at r = 0", values="symbolic function value at every grid point (read-only array)",
                     evaluation="one symbolic evaluation point away from the centre and the z-axis", l="l_max//2 <= 2"),
         outside=["exact recovery of band-limited functions with the shipped angular grids and SciPy splines is not a solver question: sampled by the ground jobs ground/band-limited and molgrid/real on the float code",
-                 "evaluation exactly at the centre / on the z-axis (covered for the conversion itself in C08)", "the angular-derivative routine (stubbed, see C08)"],
+                 "symbolic evaluation exactly at the centre / on the z-axis (the conversion itself is covered in C08; the reported derivative on the z-axis is sampled by ground/z-axis-derivative and is a known finding)", "the angular-derivative routine (stubbed, see C08)"],
         assumptions=["CubicSpline stub: records (x, y); S_j^(nu)(r) uninterpreted with S_j(x_i) = y_i", "generate_derivative_real_spherical_harmonics as imported by atomgrid.py: uninterpreted arrays",
                      "MolGrid.interpolate job: atomic grids replaced by recording stubs"])
 
